@@ -262,6 +262,16 @@ pub mod cluster {
         nodes: &[NodeSpec],
         keyspaces: &[KeyspaceSpec],
     ) -> ClusterState {
+        cluster_from_topology_with_tablets(nodes, keyspaces, &HashMap::new()).await
+    }
+
+    /// As `cluster_from_topology`; keyspaces listed in `tablet_tables` are tablet-based and have
+    /// the given tables (tablets are then added with `ClusterState::verif_update_tablets`).
+    pub async fn cluster_from_topology_with_tablets(
+        nodes: &[NodeSpec],
+        keyspaces: &[KeyspaceSpec],
+        tablet_tables: &HashMap<String, Vec<String>>,
+    ) -> ClusterState {
         let peers = nodes
             .iter()
             .enumerate()
@@ -284,8 +294,24 @@ pub mod cluster {
                     Ok(Keyspace {
                         strategy: k.strategy.clone(),
                         durable_writes: true,
-                        tablet_based: false,
-                        tables: HashMap::new(),
+                        tablet_based: tablet_tables.contains_key(&k.name),
+                        tables: tablet_tables
+                            .get(&k.name)
+                            .into_iter()
+                            .flatten()
+                            .map(|t| {
+                                (
+                                    t.clone(),
+                                    crate::cluster::metadata::Table {
+                                        columns: HashMap::new(),
+                                        partition_key: vec![],
+                                        clustering_key: vec![],
+                                        partitioner: None,
+                                        pk_column_specs: vec![],
+                                    },
+                                )
+                            })
+                            .collect(),
                         views: HashMap::new(),
                         user_defined_types: HashMap::new(),
                     }),
